@@ -71,7 +71,9 @@ func isIdentChar(c byte) bool {
 	return isIdentStart(c) || (c >= '0' && c <= '9') || c == '$'
 }
 func isDigit(c byte) bool { return c >= '0' && c <= '9' }
-func isSpace(c byte) bool { return c == ' ' || c == '\t' || c == '\r' || c == '\n' || c == '\f' || c == '\v' }
+func isSpace(c byte) bool {
+	return c == ' ' || c == '\t' || c == '\r' || c == '\n' || c == '\f' || c == '\v'
+}
 
 // three/two character operators, longest first.
 var ops3 = []string{"<<<", ">>>", "===", "!==", "|->", "|=>"}
